@@ -1,8 +1,10 @@
 (* SC.Proofs.C02_Parser -- property C02 (arithmetic): the recursive-descent parser reads the
    explicit rendering of a well-formed expression tree back as that tree, the interpreter
    computes its value under the usual rules, and the post-processing steps leave explicit
-   renderings alone outside the known defect class [known_paren3].
+   renderings alone, write the '+' between adjacent operands (juxtaposition), supply the 0 in
+   front of a leading sign and leave detached signs in operand position to the parser.
 
+   There is no known-defect hypothesis any more.
    Everything is polymorphic in the number algebra.  No axioms. *)
 From SC.Model Require Import Base Num Types Config Case Post Parser Items Interp.
 From SC.Spec Require Import Expr.
@@ -14,7 +16,7 @@ Section WithNum.
 Context {F : Type} {NF : Num F}.
 
 (* ================================================================== *)
-(* 0. Unfolding equations of the mutual fixpoint                       *)
+(* 0. Unfolding equations of the mutual fixpoint (six functions)       *)
 (* ================================================================== *)
 
 Lemma parse_level_S f l (ts : list (token F)) :
@@ -57,23 +59,46 @@ Proof. reflexivity. Qed.
 
 Lemma parse_unary_S f (ts : list (token F)) :
   parse_unary (S f) ts =
-  match parse_prefix_unary ts with
-  | (PAst ANone, ts1) =>
-    match match_operator [OP_LP] ts1 with
-    | Some _ =>
-      match parse_level f LAddSub (tl ts1) with
-      | (PFuel, r) => (PFuel, r)
-      | (PAst ANone, _) => (PErr E_INVALID, ts1)
-      | (PErr m, _) => (PErr m, ts1)
-      | (PAst a, r) =>
-        match match_operator [OP_RP] r with
-        | Some _ => (PAst a, tl r)
-        | None => (PErr E_PAREN, ts1)
-        end
+  match match_operator [OP_MINUS; OP_PLUS] ts with
+  | Some op =>
+    match tl ts with
+    | t :: r' =>
+      let opt := if N.eqb op OP_PLUS then f1 else fm1 in
+      match t with
+      | TNumber x nt => (PAst (AItem (INumber (fmul x opt) nt)), r')
+      | TVariable v => (PAst (APrefixUnary op (AVariable v)), r')
+      | TPercent x => (PAst (APrefixUnary op (AItem (IPercent x))), r')
+      | TMoney x c => (PAst (APrefixUnary op (APrefixUnary op (AItem (IMoney x c)))), r')
+      | TOperator c =>
+        if N.eqb c OP_LP then
+          match parse_paren f (tl ts) with
+          | (PAst a, rest) => (PAst (APrefixUnary op a), rest)
+          | e => e
+          end
+        else (PErr E_UNARY, ts)
+      | _ => (PErr E_UNARY, ts)
       end
-    | None => parse_basic ts1
+    | [] => parse_basic []
     end
-  | r => r
+  | None =>
+    match match_operator [OP_LP] ts with
+    | Some _ => parse_paren f ts
+    | None => parse_basic ts
+    end
+  end.
+Proof. reflexivity. Qed.
+
+Lemma parse_paren_S f (ts : list (token F)) :
+  parse_paren (S f) ts =
+  match parse_level f LAddSub (tl ts) with
+  | (PFuel, r) => (PFuel, r)
+  | (PAst ANone, _) => (PErr E_INVALID, ts)
+  | (PErr m, _) => (PErr m, ts)
+  | (PAst a, r) =>
+    match match_operator [OP_RP] r with
+    | Some _ => (PAst a, tl r)
+    | None => (PErr E_PAREN, ts)
+    end
   end.
 Proof. reflexivity. Qed.
 
@@ -87,6 +112,26 @@ Lemma right_loop_0 l (ts : list (token F)) : right_loop 0 l ts = (PFuel, ts).
 Proof. reflexivity. Qed.
 Lemma parse_unary_0 (ts : list (token F)) : parse_unary 0 ts = (PFuel, ts).
 Proof. reflexivity. Qed.
+Lemma parse_paren_0 (ts : list (token F)) : parse_paren 0 ts = (PFuel, ts).
+Proof. reflexivity. Qed.
+
+(* the three shapes of parse_unary used below *)
+Lemma parse_unary_lp f (r : list (token F)) :
+  parse_unary (S f) (TOperator OP_LP :: r) = parse_paren f (TOperator OP_LP :: r).
+Proof. reflexivity. Qed.
+
+Lemma parse_unary_sign_num f m x nt (r : list (token F)) :
+  parse_unary (S f) (TOperator (sign_char m) :: TNumber x nt :: r) =
+  (PAst (AItem (INumber (fmul x (if m then fm1 else f1)) nt)), r).
+Proof. destruct m; reflexivity. Qed.
+
+Lemma parse_unary_sign_lp f m (r : list (token F)) :
+  parse_unary (S f) (TOperator (sign_char m) :: TOperator OP_LP :: r) =
+  match parse_paren f (TOperator OP_LP :: r) with
+  | (PAst a, rest) => (PAst (APrefixUnary (sign_char m) a), rest)
+  | e => e
+  end.
+Proof. destruct m; reflexivity. Qed.
 
 (* ================================================================== *)
 (* 1. Fuel monotonicity                                                *)
@@ -100,13 +145,14 @@ Definition mono_at (f : nat) : Prop :=
   (forall l lft ts f', f <= f' -> nofuel (binary_loop f l lft ts) ->
                        binary_loop f' l lft ts = binary_loop f l lft ts) /\
   (forall l ts f', f <= f' -> nofuel (right_loop f l ts) -> right_loop f' l ts = right_loop f l ts) /\
-  (forall ts f', f <= f' -> nofuel (parse_unary f ts) -> parse_unary f' ts = parse_unary f ts).
+  (forall ts f', f <= f' -> nofuel (parse_unary f ts) -> parse_unary f' ts = parse_unary f ts) /\
+  (forall ts f', f <= f' -> nofuel (parse_paren f ts) -> parse_paren f' ts = parse_paren f ts).
 
 Lemma fuel_mono_all : forall f, mono_at f.
 Proof.
   induction f as [|f IH].
   - unfold mono_at, nofuel; repeat split; intros; exfalso; simpl in *; congruence.
-  - destruct IH as (IHpl & IHps & IHbl & IHrl & IHpu).
+  - destruct IH as (IHpl & IHps & IHbl & IHrl & IHpu & IHpp).
     unfold mono_at. repeat split.
     + (* parse_level *)
       intros l ts f' Hle Hnf. destruct f' as [|f']; [lia|]. assert (Hle' : f <= f') by lia.
@@ -143,18 +189,27 @@ Proof.
     + (* parse_unary *)
       intros ts f' Hle Hnf. destruct f' as [|f']; [lia|]. assert (Hle' : f <= f') by lia.
       rewrite parse_unary_S in Hnf. rewrite !parse_unary_S.
-      destruct (parse_prefix_unary ts) as [p ts1].
-      destruct p as [a|m|]; try reflexivity.
-      destruct a; try reflexivity.
-      destruct (match_operator [OP_LP] ts1) as [op|]; [|reflexivity].
-      destruct (parse_level f LAddSub (tl ts1)) as [p r] eqn:E.
-      assert (Hs : nofuel (parse_level f LAddSub (tl ts1))).
+      destruct (match_operator [OP_MINUS; OP_PLUS] ts) as [op|].
+      * destruct (tl ts) as [|t r']; [reflexivity|]. cbv zeta in *.
+        destruct t; try reflexivity.
+        destruct (N.eqb c OP_LP); [|reflexivity].
+        destruct (parse_paren f (TOperator c :: r')) as [p r] eqn:E.
+        assert (Hs : nofuel (parse_paren f (TOperator c :: r'))).
+        { rewrite E. unfold nofuel in *. destruct p as [a| |]; simpl in *; congruence. }
+        rewrite (IHpp (TOperator c :: r') f' Hle' Hs), E. reflexivity.
+      * destruct (match_operator [OP_LP] ts) as [op|]; [|reflexivity].
+        apply IHpp; assumption.
+    + (* parse_paren *)
+      intros ts f' Hle Hnf. destruct f' as [|f']; [lia|]. assert (Hle' : f <= f') by lia.
+      rewrite parse_paren_S in Hnf. rewrite !parse_paren_S.
+      destruct (parse_level f LAddSub (tl ts)) as [p r] eqn:E.
+      assert (Hs : nofuel (parse_level f LAddSub (tl ts))).
       { rewrite E. unfold nofuel in *. destruct p as [a| |]; simpl in *; congruence. }
-      rewrite (IHpl LAddSub (tl ts1) f' Hle' Hs), E.
+      rewrite (IHpl LAddSub (tl ts) f' Hle' Hs), E.
       reflexivity.
 Qed.
 
-(* fuel monotonicity, for each of the five mutual functions: a run that does not run out of
+(* fuel monotonicity, for each of the six mutual functions: a run that does not run out of
    fuel returns the same result with any larger fuel *)
 Theorem parse_level_mono : forall f f' l ts, f <= f' ->
   fst (parse_level f l ts) <> PFuel -> parse_level f' l ts = parse_level f l ts.
@@ -171,14 +226,86 @@ Proof. intros f f' l ts. apply (fuel_mono_all f). Qed.
 Theorem parse_unary_mono : forall f f' ts, f <= f' ->
   fst (parse_unary f ts) <> PFuel -> parse_unary f' ts = parse_unary f ts.
 Proof. intros f f' ts. apply (fuel_mono_all f). Qed.
+Theorem parse_paren_mono : forall f f' ts, f <= f' ->
+  fst (parse_paren f ts) <> PFuel -> parse_paren f' ts = parse_paren f ts.
+Proof. intros f f' ts. apply (fuel_mono_all f). Qed.
 
 
 (* ================================================================== *)
 (* 2. The parser reads explicit renderings back                        *)
 (* ================================================================== *)
+(* The proof is carried out once, for trees with detached sign prefixes ([sexpr]); plain
+   trees ([expr]) are the sign-free ones (embedding [inj]).  For the parser the position of
+   a sign prefix does not matter (it is the tokenizer that treats a sign at an expression
+   start differently), so the parser statement uses the weaker well-formedness [pwf]. *)
+
+Fixpoint pwf (e : sexpr F) : bool :=
+  match e with
+  | SLit _ => true
+  | SPar e => pwf e
+  | SBin o l r =>
+    pwf l && pwf r && Nat.leb (bop_level o) (slevel_of l) && Nat.ltb (bop_level o) (slevel_of r)
+  | SNeg _ e => is_atom e && pwf e
+  end.
+
+Lemma swf_pwf : forall e : sexpr F, swf e = true -> pwf e = true.
+Proof.
+  induction e as [x|e IH|o l IHl r IHr|m e IH]; cbn [swf pwf]; intro H.
+  - reflexivity.
+  - apply andb_true_iff in H as [H _]. auto.
+  - apply andb_true_iff in H as [H _].
+    apply andb_true_iff in H as [H Hr]. apply andb_true_iff in H as [H Hl].
+    apply andb_true_iff in H as [Hwl Hwr].
+    rewrite (IHl Hwl), (IHr Hwr), Hl, Hr. reflexivity.
+  - apply andb_true_iff in H as [Ha H]. rewrite Ha, (IH H). reflexivity.
+Qed.
+
+Fixpoint inj (e : expr F) : sexpr F :=
+  match e with
+  | Lit x => SLit x
+  | Par e => SPar (inj e)
+  | Bin o l r => SBin o (inj l) (inj r)
+  end.
+
+Lemma stoks_inj : forall e : expr F, stoks_of (inj e) = toks_of e.
+Proof.
+  induction e as [x|e IH|o l IHl r IHr]; cbn [inj stoks_of toks_of];
+    rewrite ?IH, ?IHl, ?IHr; reflexivity.
+Qed.
+
+Lemma sast_inj : forall e : expr F, sast_of (inj e) = ast_of e.
+Proof.
+  induction e as [x|e IH|o l IHl r IHr]; cbn [inj sast_of ast_of];
+    rewrite ?IH, ?IHl, ?IHr; reflexivity.
+Qed.
+
+Lemma slevel_inj : forall e : expr F, slevel_of (inj e) = level_of e.
+Proof. destruct e as [x|e|o l r]; reflexivity. Qed.
+
+Lemma pwf_inj : forall e : expr F, pwf (inj e) = wf e.
+Proof.
+  induction e as [x|e IH|o l IHl r IHr]; cbn [inj pwf wf].
+  - reflexivity.
+  - exact IH.
+  - rewrite IHl, IHr, !slevel_inj. reflexivity.
+Qed.
+
+Lemma sdenote_inj : forall e : expr F, sdenote (inj e) = denote e.
+Proof.
+  induction e as [x|e IH|o l IHl r IHr]; cbn [inj sdenote denote].
+  - reflexivity.
+  - exact IH.
+  - rewrite IHl, IHr. reflexivity.
+Qed.
+
+Lemma sast_of_not_none : forall e : sexpr F, sast_of e <> ANone.
+Proof.
+  induction e as [x|e IH|o l IHl r IHr|m e IH]; cbn [sast_of]; try congruence.
+  destruct e; congruence.
+Qed.
 
 Lemma ast_of_not_none : forall e : expr F, ast_of e <> ANone.
-Proof. induction e as [x|e IH|o l IHl r IHr]; simpl; try congruence. Qed.
+Proof. intro e. rewrite <- sast_inj. apply sast_of_not_none. Qed.
 
 Lemma parse_level_step f l (ts : list (token F)) a r :
   parse_sub f l ts = (PAst a, r) -> a <> ANone ->
@@ -195,33 +322,35 @@ Proof.
 Qed.
 
 (* fuel measure: an upper bound on the nesting of calls per node *)
-Fixpoint cost (e : expr F) : nat :=
+Fixpoint cost (e : sexpr F) : nat :=
   match e with
-  | Lit _ => 1
-  | Par e => cost e + 9
-  | Bin _ l r => cost l + cost r + 8
+  | SLit _ => 1
+  | SPar e => cost e + 10
+  | SBin _ l r => cost l + cost r + 8
+  | SNeg _ e => cost e + 1
   end.
 
-Lemma cost_le_length : forall e, cost e <= 9 * length (toks_of e).
+Lemma cost_le_length : forall e, cost e <= 9 * length (stoks_of e).
 Proof.
-  induction e as [x|e IH|o l IHl r IHr]; cbn [cost toks_of].
+  induction e as [x|e IH|o l IHl r IHr|m e IH]; cbn [cost stoks_of].
   - simpl. lia.
   - cbn [length]. rewrite app_length. cbn [length]. lia.
   - rewrite app_length. cbn [length]. lia.
+  - cbn [length]. lia.
 Qed.
 
 (* the suffix does not continue a multiplicative (or modulo) chain *)
 Definition nomul (suf : list (token F)) : Prop :=
   match_operator (level_ops LMulDiv) suf = None /\ match_operator (level_ops LModulo) suf = None.
 
-Lemma level_of_bin o (l r : expr F) : level_of (Bin o l r) = bop_level o.
+Lemma slevel_of_bin o (l r : sexpr F) : slevel_of (SBin o l r) = bop_level o.
 Proof. destruct o; reflexivity. Qed.
 
 Lemma bop_level_cases o : bop_level o = 0 \/ bop_level o = 2.
 Proof. destruct o; simpl; auto. Qed.
 
-Lemma level_of_cases (e : expr F) : level_of e = 0 \/ level_of e = 2 \/ level_of e = 3.
-Proof. destruct e as [x|e|o l r]; simpl; auto. destruct o; auto. Qed.
+Lemma slevel_of_cases (e : sexpr F) : slevel_of e = 0 \/ slevel_of e = 2 \/ slevel_of e = 3.
+Proof. destruct e as [x|e|o l r|m e]; simpl; auto. destruct o; auto. Qed.
 
 Lemma match_mul o (r : list (token F)) : bop_level o = 2 ->
   match_operator (level_ops LMulDiv) (TOperator (bop_char o) :: r) = Some (bop_char o).
@@ -238,71 +367,85 @@ Lemma nomul_rp (r : list (token F)) : nomul (TOperator OP_RP :: r).
 Proof. split; reflexivity. Qed.
 
 (* the three levels of the statement *)
-(* an atom is read by parse_unary, whatever follows *)
-Definition U (e : expr F) : Prop :=
-  forall suf f, cost e <= f -> parse_unary f (toks_of e ++ suf) = (PAst (ast_of e), suf).
+(* an atom (a literal, a parenthesis, a signed atom) is read by parse_unary, whatever follows *)
+Definition U (e : sexpr F) : Prop :=
+  forall suf f, cost e <= f -> parse_unary f (stoks_of e ++ suf) = (PAst (sast_of e), suf).
 (* a multiplicative chain, whatever follows: reading it at level * / amounts to continuing
-   the loop of that level from the accumulated left operand [ast_of e] *)
-Definition M (e : expr F) : Prop :=
-  forall suf n, nofuel (binary_loop n LMulDiv (ast_of e) suf) ->
+   the loop of that level from the accumulated left operand [sast_of e] *)
+Definition M (e : sexpr F) : Prop :=
+  forall suf n, nofuel (binary_loop n LMulDiv (sast_of e) suf) ->
   forall f, n + cost e + 2 <= f ->
-  parse_level f LMulDiv (toks_of e ++ suf) = binary_loop n LMulDiv (ast_of e) suf.
+  parse_level f LMulDiv (stoks_of e ++ suf) = binary_loop n LMulDiv (sast_of e) suf.
 (* an additive chain followed by something that is not * / % *)
-Definition A (e : expr F) : Prop :=
+Definition A (e : sexpr F) : Prop :=
   forall suf, nomul suf ->
-  forall n, nofuel (binary_loop n LAddSub (ast_of e) suf) ->
+  forall n, nofuel (binary_loop n LAddSub (sast_of e) suf) ->
   forall f, n + cost e + 7 <= f ->
-  parse_level f LAddSub (toks_of e ++ suf) = binary_loop n LAddSub (ast_of e) suf.
+  parse_level f LAddSub (stoks_of e ++ suf) = binary_loop n LAddSub (sast_of e) suf.
 
-Lemma U_Lit x : U (Lit x).
+Lemma U_Lit x : U (SLit x).
 Proof.
   intros suf f Hf. simpl in Hf. destruct f as [|f]; [lia|].
   rewrite parse_unary_S. reflexivity.
 Qed.
 
-Lemma U_Par e : A e -> U (Par e).
+(* parse_parenthesis on "( e ) suf" *)
+Lemma P_Par e : A e -> forall suf f, cost e + 9 <= f ->
+  parse_paren f (TOperator OP_LP :: stoks_of e ++ TOperator OP_RP :: suf) = (PAst (sast_of e), suf).
 Proof.
-  intros HA suf f Hf. cbn [cost] in Hf. destruct f as [|f]; [lia|].
-  cbn [toks_of ast_of]. rewrite <- app_comm_cons, <- app_assoc. cbn [app].
-  rewrite parse_unary_S.
-  change (parse_prefix_unary (TOperator OP_LP :: toks_of e ++ TOperator OP_RP :: suf))
-    with (@PAst F ANone, TOperator OP_LP :: toks_of e ++ TOperator OP_RP :: suf).
-  cbv iota beta.
-  change (match_operator [OP_LP] (TOperator OP_LP :: toks_of e ++ TOperator OP_RP :: suf))
-    with (Some OP_LP).
-  cbv iota beta. cbn [tl].
+  intros HA suf f Hf. destruct f as [|f]; [lia|].
+  rewrite parse_paren_S. cbn [tl].
   rewrite (HA (TOperator OP_RP :: suf) (nomul_rp suf) 1).
-  - pose proof (ast_of_not_none e) as Hn.
+  - pose proof (sast_of_not_none e) as Hn.
     rewrite binary_loop_S.
     change (match_operator (level_ops LAddSub) (TOperator OP_RP :: suf)) with (@None N).
     cbv iota beta.
-    destruct (ast_of e); try congruence; reflexivity.
+    destruct (sast_of e); try congruence; reflexivity.
   - unfold nofuel. rewrite binary_loop_S. simpl. congruence.
   - lia.
+Qed.
+
+Lemma U_Par e : A e -> U (SPar e).
+Proof.
+  intros HA suf f Hf. cbn [cost] in Hf. destruct f as [|f]; [lia|].
+  cbn [stoks_of sast_of]. rewrite <- app_comm_cons, <- app_assoc. cbn [app].
+  rewrite parse_unary_lp. apply P_Par; [exact HA|lia].
+Qed.
+
+(* a sign in front of an atom: the literal is negated in place, a parenthesis is wrapped *)
+Lemma U_Neg m e : is_atom e = true -> U e -> U (SNeg m e).
+Proof.
+  intros Hat HU suf f Hf. cbn [cost] in Hf. destruct f as [|f]; [lia|].
+  destruct e as [x|e'|o l r|m' e']; simpl in Hat; try discriminate.
+  - cbn [stoks_of sast_of app]. apply parse_unary_sign_num.
+  - assert (Hc : cost (SPar e') <= S f) by lia.
+    pose proof (HU suf (S f) Hc) as H.
+    cbn [stoks_of sast_of app] in H |- *.
+    rewrite parse_unary_lp in H. rewrite parse_unary_sign_lp, H. reflexivity.
 Qed.
 
 Lemma M_of_U e : U e -> M e.
 Proof.
   intros HU suf n Hnf f Hf. destruct f as [|[|f]]; try lia.
-  rewrite (parse_level_step (S f) LMulDiv _ (ast_of e) suf).
+  rewrite (parse_level_step (S f) LMulDiv _ (sast_of e) suf).
   - apply binary_loop_mono; [lia|exact Hnf].
   - rewrite parse_sub_S. apply HU. lia.
-  - apply ast_of_not_none.
+  - apply sast_of_not_none.
 Qed.
 
-Lemma M_Bin o l r : bop_level o = 2 -> M l -> U r -> M (Bin o l r).
+Lemma M_Bin o l r : bop_level o = 2 -> M l -> U r -> M (SBin o l r).
 Proof.
-  intros Ho HMl HUr suf n Hnf f Hf. cbn [toks_of ast_of cost] in *.
+  intros Ho HMl HUr suf n Hnf f Hf. cbn [stoks_of sast_of cost] in *.
   rewrite <- app_assoc, <- app_comm_cons.
-  assert (Hstep : binary_loop (n + cost r + 3) LMulDiv (ast_of l)
-                              (TOperator (bop_char o) :: toks_of r ++ suf)
-                  = binary_loop n LMulDiv (ABinary (ast_of l) (bop_char o) (ast_of r)) suf).
+  assert (Hstep : binary_loop (n + cost r + 3) LMulDiv (sast_of l)
+                              (TOperator (bop_char o) :: stoks_of r ++ suf)
+                  = binary_loop n LMulDiv (ABinary (sast_of l) (bop_char o) (sast_of r)) suf).
   { replace (n + cost r + 3) with (S (S (S (n + cost r)))) by lia.
     rewrite binary_loop_S, (match_mul o _ Ho). cbn [tl].
-    rewrite (right_loop_step _ _ _ (ast_of r) suf).
+    rewrite (right_loop_step _ _ _ (sast_of r) suf).
     - apply binary_loop_mono; [lia|exact Hnf].
     - rewrite parse_sub_S. apply HUr. lia.
-    - apply ast_of_not_none. }
+    - apply sast_of_not_none. }
   rewrite <- Hstep. apply HMl.
   - rewrite Hstep. exact Hnf.
   - lia.
@@ -310,73 +453,78 @@ Qed.
 
 (* a multiplicative chain read at the (unused) modulo level *)
 Lemma T_of_M e : M e -> forall suf, nomul suf -> forall f, cost e + 5 <= f ->
-  parse_level f LModulo (toks_of e ++ suf) = (PAst (ast_of e), suf).
+  parse_level f LModulo (stoks_of e ++ suf) = (PAst (sast_of e), suf).
 Proof.
   intros HM suf [Hmul Hmod] f Hf. destruct f as [|[|f]]; try lia.
-  assert (Hb : binary_loop 1 LMulDiv (ast_of e) suf = (PAst (ast_of e), suf)).
+  assert (Hb : binary_loop 1 LMulDiv (sast_of e) suf = (PAst (sast_of e), suf)).
   { rewrite binary_loop_S, Hmul. reflexivity. }
-  rewrite (parse_level_step (S f) LModulo _ (ast_of e) suf).
+  rewrite (parse_level_step (S f) LModulo _ (sast_of e) suf).
   - rewrite binary_loop_S, Hmod. reflexivity.
   - rewrite parse_sub_S. rewrite (HM suf 1).
     + exact Hb.
     + rewrite Hb. unfold nofuel. simpl. congruence.
     + lia.
-  - apply ast_of_not_none.
+  - apply sast_of_not_none.
 Qed.
 
 Lemma A_of_M e : M e -> A e.
 Proof.
   intros HM suf Hsuf n Hnf f Hf. destruct f as [|[|f]]; try lia.
-  rewrite (parse_level_step (S f) LAddSub _ (ast_of e) suf).
+  rewrite (parse_level_step (S f) LAddSub _ (sast_of e) suf).
   - apply binary_loop_mono; [lia|exact Hnf].
   - rewrite parse_sub_S. apply (T_of_M e HM suf Hsuf). lia.
-  - apply ast_of_not_none.
+  - apply sast_of_not_none.
 Qed.
 
-Lemma A_Bin o l r : bop_level o = 0 -> A l -> M r -> A (Bin o l r).
+Lemma A_Bin o l r : bop_level o = 0 -> A l -> M r -> A (SBin o l r).
 Proof.
-  intros Ho HAl HMr suf Hsuf n Hnf f Hf. cbn [toks_of ast_of cost] in *.
+  intros Ho HAl HMr suf Hsuf n Hnf f Hf. cbn [stoks_of sast_of cost] in *.
   rewrite <- app_assoc, <- app_comm_cons.
-  assert (Hstep : binary_loop (n + cost r + 8) LAddSub (ast_of l)
-                              (TOperator (bop_char o) :: toks_of r ++ suf)
-                  = binary_loop n LAddSub (ABinary (ast_of l) (bop_char o) (ast_of r)) suf).
+  assert (Hstep : binary_loop (n + cost r + 8) LAddSub (sast_of l)
+                              (TOperator (bop_char o) :: stoks_of r ++ suf)
+                  = binary_loop n LAddSub (ABinary (sast_of l) (bop_char o) (sast_of r)) suf).
   { replace (n + cost r + 8) with (S (S (S (n + cost r + 5)))) by lia.
     rewrite binary_loop_S, (match_add o _ Ho). cbn [tl].
-    rewrite (right_loop_step _ _ _ (ast_of r) suf).
+    rewrite (right_loop_step _ _ _ (sast_of r) suf).
     - apply binary_loop_mono; [lia|exact Hnf].
     - rewrite parse_sub_S. apply (T_of_M r HMr suf Hsuf). lia.
-    - apply ast_of_not_none. }
+    - apply sast_of_not_none. }
   rewrite <- Hstep. apply HAl.
   - apply nomul_add. exact Ho.
   - rewrite Hstep. exact Hnf.
   - lia.
 Qed.
 
-Lemma parse_main : forall e : expr F, wf e = true ->
-  (level_of e = 3 -> U e) /\ (2 <= level_of e -> M e) /\ A e.
+Lemma parse_main : forall e : sexpr F, pwf e = true ->
+  (slevel_of e = 3 -> U e) /\ (2 <= slevel_of e -> M e) /\ A e.
 Proof.
-  induction e as [x|e IH|o l IHl r IHr]; intro Hwf.
+  induction e as [x|e IH|o l IHl r IHr|m e IH]; intro Hwf.
   - pose proof (U_Lit x) as HU. pose proof (M_of_U _ HU) as HM.
     repeat split; intros; auto using A_of_M.
-  - cbn [wf] in Hwf. destruct (IH Hwf) as (_ & _ & HA).
+  - cbn [pwf] in Hwf. destruct (IH Hwf) as (_ & _ & HA).
     pose proof (U_Par e HA) as HU. pose proof (M_of_U _ HU) as HM.
     repeat split; intros; auto using A_of_M.
-  - cbn [wf] in Hwf.
+  - cbn [pwf] in Hwf.
     apply andb_true_iff in Hwf as [Hwf Hr]. apply andb_true_iff in Hwf as [Hwf Hl].
     apply andb_true_iff in Hwf as [Hwl Hwr].
     apply Nat.leb_le in Hl. apply Nat.ltb_lt in Hr.
     destruct (IHl Hwl) as (_ & HMl & HAl). destruct (IHr Hwr) as (HUr & HMr & _).
-    rewrite level_of_bin.
-    assert (HM : bop_level o = 2 -> M (Bin o l r)).
+    rewrite slevel_of_bin.
+    assert (HM : bop_level o = 2 -> M (SBin o l r)).
     { intro Ho. apply M_Bin; [exact Ho| apply HMl; lia |apply HUr].
-      destruct (level_of_cases r) as [H|[H|H]]; lia. }
+      destruct (slevel_of_cases r) as [H|[H|H]]; lia. }
     split; [|split].
     + intro H3. destruct (bop_level_cases o); lia.
     + intro H2. apply HM. destruct (bop_level_cases o); lia.
     + destruct (bop_level_cases o) as [Ho|Ho].
       * apply A_Bin; [exact Ho|exact HAl|]. apply HMr.
-        destruct (level_of_cases r) as [H|[H|H]]; lia.
+        destruct (slevel_of_cases r) as [H|[H|H]]; lia.
       * apply A_of_M. apply HM. exact Ho.
+  - cbn [pwf] in Hwf. apply andb_true_iff in Hwf as [Hat Hwf].
+    destruct (IH Hwf) as (HUe & _ & _).
+    assert (H3 : slevel_of e = 3) by (destruct e; simpl in Hat; try discriminate; reflexivity).
+    pose proof (U_Neg m e Hat (HUe H3)) as HU. pose proof (M_of_U _ HU) as HM.
+    repeat split; intros; auto using A_of_M.
 Qed.
 
 (* the suffix does not start with one of + - * / % *)
@@ -397,16 +545,17 @@ Proof.
     simpl; intro H; try discriminate; repeat split; reflexivity.
 Qed.
 
-(* General form: the rendering followed by any suffix that does not continue the expression
-   (the empty suffix, a closing parenthesis, ...), with any fuel above an explicit bound. *)
-Theorem c02_parse_level_cost : forall (e : expr F) (suf : list (token F)) fuel,
-  wf e = true -> stop_tok suf = true -> cost e + 8 <= fuel ->
-  parse_level fuel LAddSub (toks_of e ++ suf) = (PAst (ast_of e), suf).
+(* General form, with sign prefixes: the rendering followed by any suffix that does not
+   continue the expression (the empty suffix, a closing parenthesis, ...), with any fuel above
+   an explicit bound. *)
+Theorem c02_sparse_level_cost : forall (e : sexpr F) (suf : list (token F)) fuel,
+  pwf e = true -> stop_tok suf = true -> cost e + 8 <= fuel ->
+  parse_level fuel LAddSub (stoks_of e ++ suf) = (PAst (sast_of e), suf).
 Proof.
   intros e suf fuel Hwf Hstop Hf.
   destruct (stop_tok_spec suf Hstop) as [Hnm Hadd].
   destruct (parse_main e Hwf) as (_ & _ & HA).
-  assert (Hb : binary_loop 1 LAddSub (ast_of e) suf = (PAst (ast_of e), suf)).
+  assert (Hb : binary_loop 1 LAddSub (sast_of e) suf = (PAst (sast_of e), suf)).
   { rewrite binary_loop_S, Hadd. reflexivity. }
   rewrite (HA suf Hnm 1).
   - exact Hb.
@@ -414,12 +563,40 @@ Proof.
   - lia.
 Qed.
 
+Theorem c02_sparse_level_suffix : forall (e : sexpr F) (suf : list (token F)) fuel,
+  pwf e = true -> stop_tok suf = true -> 9 * length (stoks_of e) + 8 <= fuel ->
+  parse_level fuel LAddSub (stoks_of e ++ suf) = (PAst (sast_of e), suf).
+Proof.
+  intros e suf fuel Hwf Hstop Hf. apply c02_sparse_level_cost; auto.
+  pose proof (cost_le_length e). lia.
+Qed.
+
+(* the parser half of c02_sign_parse needs no restriction on where the signs stand *)
+Theorem c02_sparse_level : forall (e : sexpr F), pwf e = true ->
+  parse_level (parse_fuel (stoks_of e)) LAddSub (stoks_of e) = (PAst (sast_of e), []).
+Proof.
+  intros e Hwf.
+  pose proof (c02_sparse_level_suffix e [] (parse_fuel (stoks_of e)) Hwf eq_refl) as H.
+  rewrite app_nil_r in H. apply H. unfold parse_fuel. lia.
+Qed.
+
+(* the same for plain trees *)
+Theorem c02_parse_level_cost : forall (e : expr F) (suf : list (token F)) fuel,
+  wf e = true -> stop_tok suf = true -> cost (inj e) + 8 <= fuel ->
+  parse_level fuel LAddSub (toks_of e ++ suf) = (PAst (ast_of e), suf).
+Proof.
+  intros e suf fuel Hwf Hstop Hf. rewrite <- stoks_inj, <- sast_inj.
+  apply c02_sparse_level_cost; auto. rewrite pwf_inj. exact Hwf.
+Qed.
+
 Theorem c02_parse_level_suffix : forall (e : expr F) (suf : list (token F)) fuel,
   wf e = true -> stop_tok suf = true -> 9 * length (toks_of e) + 8 <= fuel ->
   parse_level fuel LAddSub (toks_of e ++ suf) = (PAst (ast_of e), suf).
 Proof.
-  intros e suf fuel Hwf Hstop Hf. apply c02_parse_level_cost; auto.
-  pose proof (cost_le_length e). lia.
+  intros e suf fuel Hwf Hstop Hf. rewrite <- stoks_inj, <- sast_inj.
+  apply c02_sparse_level_suffix; auto.
+  - rewrite pwf_inj. exact Hwf.
+  - rewrite stoks_inj. exact Hf.
 Qed.
 
 (* 1. with the fuel the model actually uses *)
@@ -446,90 +623,91 @@ Proof.
     destruct o; reflexivity.
 Qed.
 
+(* with sign prefixes; no well-formedness is needed at all *)
+Theorem c02_sign_eval_any : forall bexec cfg vs (e : sexpr F),
+  execute_ast bexec cfg vs (sast_of e) = Ok (IOk (AItem (INumber (sdenote e) Decimal)), vs).
+Proof.
+  intros bexec cfg vs e. induction e as [x|e IH|o l IHl r IHr|m e IH].
+  - reflexivity.
+  - exact IH.
+  - cbn [sast_of sdenote execute_ast]. rewrite IHl. cbn [bind]. rewrite IHr. cbn [bind].
+    destruct o; reflexivity.
+  - assert (H : execute_ast bexec cfg vs (APrefixUnary (sign_char m) (sast_of e)) =
+                Ok (IOk (AItem (INumber (if m then fmul fm1 (sdenote e) else sdenote e) Decimal)), vs)).
+    { cbn [execute_ast]. rewrite IH. cbn [bind]. destruct m; reflexivity. }
+    destruct e; try exact H. reflexivity.
+Qed.
+
+Theorem c02_sign_eval : forall bexec cfg vs (e : sexpr F), swf e = true ->
+  execute_ast bexec cfg vs (sast_of e) = Ok (IOk (AItem (INumber (sdenote e) Decimal)), vs).
+Proof. intros bexec cfg vs e _. apply c02_sign_eval_any. Qed.
+
 (* ================================================================== *)
-(* 4. Post-processing leaves explicit renderings alone                 *)
+(* 4. Post-processing                                                  *)
 (* ================================================================== *)
 
-(* -- add_missing inserts nothing when no two operands are adjacent -- *)
-Fixpoint alt_ok (ts : list (token F)) (b : bool) : bool :=
-  match ts with
-  | [] => true
-  | t :: r => if is_any_op t then alt_ok r false else negb b && alt_ok r true
-  end.
+(* -- add_missing, token by token -- *)
+Lemma add_missing_num x nt (r : list (token F)) es opr :
+  add_missing (TNumber x nt :: r) es opr =
+  (if opr then [TOperator OP_PLUS] else []) ++ TNumber x nt :: add_missing r false true.
+Proof. reflexivity. Qed.
 
-Lemma add_missing_id : forall ts b, alt_ok ts b = true -> add_missing ts b = ts.
+Lemma add_missing_lp (r : list (token F)) es opr :
+  add_missing (TOperator OP_LP :: r) es opr =
+  (if opr then [TOperator OP_PLUS] else []) ++ TOperator OP_LP :: add_missing r true false.
+Proof. reflexivity. Qed.
+
+Lemma add_missing_rp (r : list (token F)) es opr :
+  add_missing (TOperator OP_RP :: r) es opr = TOperator OP_RP :: add_missing r false true.
+Proof. reflexivity. Qed.
+
+Lemma add_missing_bop o (r : list (token F)) es opr :
+  add_missing (TOperator (bop_char o) :: r) es opr =
+  (if es then [TNumber f0 Decimal] else []) ++ TOperator (bop_char o) :: add_missing r false false.
+Proof. destruct o; reflexivity. Qed.
+
+Lemma add_missing_sign m (r : list (token F)) es opr :
+  add_missing (TOperator (sign_char m) :: r) es opr =
+  (if es then [TNumber f0 Decimal] else []) ++ TOperator (sign_char m) :: add_missing r false false.
+Proof. destruct m; reflexivity. Qed.
+
+Lemma add_missing_plus (r : list (token F)) es opr :
+  add_missing (TOperator OP_PLUS :: r) es opr =
+  (if es then [TNumber f0 Decimal] else []) ++ TOperator OP_PLUS :: add_missing r false false.
+Proof. reflexivity. Qed.
+
+(* -- explicit renderings: nothing is missing -- *)
+Lemma add_missing_toks : forall (e : expr F) suf es,
+  add_missing (toks_of e ++ suf) es false = toks_of e ++ add_missing suf false true.
 Proof.
-  induction ts as [|t r IH]; intros b H; simpl in *; [reflexivity|].
-  destruct (is_any_op t).
-  - f_equal. apply IH. exact H.
-  - destruct b; simpl in H; [discriminate|]. f_equal. apply IH. exact H.
+  induction e as [x|e IH|o l IHl r IHr]; intros suf es; cbn [toks_of].
+  - cbn [app]. rewrite add_missing_num. reflexivity.
+  - rewrite <- !app_comm_cons, <- !app_assoc. cbn [app].
+    rewrite add_missing_lp, IH, add_missing_rp. reflexivity.
+  - rewrite <- !app_assoc, <- !app_comm_cons.
+    rewrite IHl, add_missing_bop, IHr. reflexivity.
 Qed.
 
-Lemma alt_ok_weaken ts : alt_ok ts true = true -> alt_ok ts false = true.
+Lemma add_missing_toks_nil (e : expr F) es : add_missing (toks_of e) es false = toks_of e.
 Proof.
-  destruct ts as [|t r]; simpl; auto. destruct (is_any_op t); auto. simpl. discriminate.
+  pose proof (add_missing_toks e [] es) as H. rewrite !app_nil_r in H. exact H.
 Qed.
 
-Lemma alt_ok_toks : forall (e : expr F) suf,
-  alt_ok suf true = true -> alt_ok (toks_of e ++ suf) false = true.
-Proof.
-  induction e as [x|e IH|o l IHl r IHr]; intros suf H; cbn [toks_of].
-  - simpl. exact H.
-  - rewrite <- app_comm_cons, <- app_assoc. simpl. apply IH. simpl. apply alt_ok_weaken, H.
-  - rewrite <- app_assoc, <- app_comm_cons. apply IHl. simpl. apply IHr, H.
-Qed.
-
-Lemma alt_ok_skipn : forall k ts b, alt_ok ts b = true -> alt_ok (skipn k ts) false = true.
-Proof.
-  induction k as [|k IH]; intros ts b H.
-  - simpl. destruct b; auto using alt_ok_weaken.
-  - destruct ts as [|t r]; simpl; [reflexivity|]. simpl in H.
-    destruct (is_any_op t).
-    + eapply IH; eauto.
-    + apply andb_true_iff in H as [_ H]. eapply IH; eauto.
-Qed.
-
-(* -- what follows an opening parenthesis -- *)
-Definition sel (t : token F) : bool := is_op OP_EQ t || is_op OP_LP t.
-Definition open_ok (t : token F) : bool := negb (is_any_op t) || is_op OP_LP t.
-Definition first_ok (ts : list (token F)) : bool :=
-  match ts with t :: _ => open_ok t | [] => false end.
-Fixpoint lp_ok (ts : list (token F)) : bool :=
-  match ts with
-  | [] => true
-  | t :: r => (if is_op OP_LP t then first_ok r else true) && lp_ok r
-  end.
+(* -- no '=' in a rendering -- *)
 Definition noeq (ts : list (token F)) : bool := forallb (fun t => negb (is_op OP_EQ t)) ts.
 
-Lemma first_ok_toks : forall (e : expr F) suf, first_ok (toks_of e ++ suf) = true.
-Proof.
-  induction e as [x|e IH|o l IHl r IHr]; intros suf; cbn [toks_of].
-  - reflexivity.
-  - reflexivity.
-  - rewrite <- app_assoc. apply IHl.
-Qed.
-
-Lemma lp_ok_toks : forall (e : expr F) suf, lp_ok suf = true -> lp_ok (toks_of e ++ suf) = true.
-Proof.
-  induction e as [x|e IH|o l IHl r IHr]; intros suf H; cbn [toks_of].
-  - simpl. exact H.
-  - rewrite <- app_comm_cons, <- app_assoc. cbn [lp_ok]. apply andb_true_iff. split.
-    + simpl. apply first_ok_toks.
-    + apply IH. simpl. exact H.
-  - rewrite <- app_assoc, <- app_comm_cons. apply IHl. cbn [lp_ok].
-    apply andb_true_iff. split.
-    + destruct o; reflexivity.
-    + apply IHr, H.
-Qed.
-
-Lemma noeq_toks : forall (e : expr F), noeq (toks_of e) = true.
+Lemma noeq_stoks : forall (e : sexpr F), noeq (stoks_of e) = true.
 Proof.
   unfold noeq.
-  induction e as [x|e IH|o l IHl r IHr]; cbn [toks_of].
+  induction e as [x|e IH|o l IHl r IHr|m e IH]; cbn [stoks_of].
   - reflexivity.
   - cbn [forallb]. rewrite forallb_app, IH. reflexivity.
   - rewrite forallb_app. cbn [forallb]. rewrite IHl, IHr. destruct o; reflexivity.
+  - cbn [forallb]. rewrite IH. destruct m; reflexivity.
 Qed.
+
+Lemma noeq_toks : forall (e : expr F), noeq (toks_of e) = true.
+Proof. intro e. rewrite <- stoks_inj. apply noeq_stoks. Qed.
 
 Lemma find_index_none {A} (p : A -> bool) ts :
   forallb (fun t => negb (p t)) ts = true -> find_index p ts = None.
@@ -542,149 +720,42 @@ Qed.
 Lemma find_eq_toks (e : expr F) : find_index (is_op OP_EQ) (toks_of e) = None.
 Proof. apply find_index_none. apply noeq_toks. Qed.
 
-Lemma is_op_any c (t : token F) : is_op c t = true -> is_any_op t = true.
-Proof. destruct t; simpl; congruence. Qed.
+Lemma find_eq_stoks (e : sexpr F) : find_index (is_op OP_EQ) (stoks_of e) = None.
+Proof. apply find_index_none. apply noeq_stoks. Qed.
 
-Lemma after_first_lp : forall ts i,
-  find_index sel ts = Some i -> noeq ts = true -> lp_ok ts = true ->
-  exists t, nth_opt ts (S i) = Some t /\ open_ok t = true.
+(* without '=' the scan starts at the first token *)
+Lemma mta_noeq ts : noeq ts = true -> missing_token_adder ts = add_missing ts true false.
 Proof.
-  induction ts as [|t r IH]; intros i Hf Hn Hl; simpl in Hf; [discriminate|].
-  simpl in Hn. apply andb_true_iff in Hn as [Hn1 Hn2].
-  cbn [lp_ok] in Hl. apply andb_true_iff in Hl as [Hl1 Hl2].
-  destruct (sel t) eqn:Es.
-  - inversion Hf; subst i. unfold sel in Es.
-    destruct (is_op OP_EQ t); [discriminate|]. simpl in Es. rewrite Es in Hl1.
-    destruct r as [|t' r']; simpl in Hl1; [discriminate|].
-    exists t'. split; [reflexivity|exact Hl1].
-  - destruct (find_index sel r) as [i'|] eqn:E; simpl in Hf; [|discriminate].
-    inversion Hf; subst i. destruct (IH i' eq_refl Hn2 Hl2) as (t' & Ht & Ho).
-    exists t'. split; [exact Ht|exact Ho].
-Qed.
-
-Lemma find_index_none_hd {A} (p : A -> bool) t r : find_index p (t :: r) = None -> p t = false.
-Proof. simpl. destruct (p t); [discriminate|reflexivity]. Qed.
-
-Lemma nth_opt_lt {A} : forall (ts : list A) k, k < length ts -> exists t, nth_opt ts k = Some t.
-Proof.
-  induction ts as [|t r IH]; intros k H; simpl in H; [lia|].
-  destruct k as [|k]; simpl; [eauto|]. apply IH. lia.
-Qed.
-
-Lemma skipn_nth {A} : forall (ts : list A) k t, nth_opt ts k = Some t ->
-  skipn k ts = t :: skipn (S k) ts.
-Proof.
-  induction ts as [|x r IH]; intros k t H; [destruct k; discriminate|].
-  destruct k as [|k]; simpl in *.
-  - congruence.
-  - apply IH. exact H.
-Qed.
-
-(* the body of missing_token_adder, as a function of the first index *)
-Definition mta_from (ts : list (token F)) (index : nat) : list (token F) :=
-  if Nat.leb (length ts) (index + 1) then ts
-  else
-    let index' := match nth_opt ts index with
-                  | Some t => if is_op OP_LP t then S index else index
-                  | None => index end in
-    match skipn index' ts with
-    | [] => ts
-    | t :: _ =>
-      firstn index' ts ++
-      add_missing (if is_any_op t then TNumber f0 Decimal :: skipn index' ts else skipn index' ts) false
-    end.
-
-Lemma mta_eq ts : missing_token_adder ts =
-  match ts with
-  | [] => []
-  | _ => mta_from ts (match find_index sel ts with Some i => S i | None => 0 end)
-  end.
-Proof. destruct ts; reflexivity. Qed.
-
-Lemma mta_tail ts k t :
-  nth_opt ts k = Some t -> is_any_op t = false -> alt_ok ts false = true ->
-  match skipn k ts with
-  | [] => ts
-  | t :: _ =>
-    firstn k ts ++
-    add_missing (if is_any_op t then TNumber f0 Decimal :: skipn k ts else skipn k ts) false
-  end = ts.
-Proof.
-  intros Hn Hop Halt. pose proof (skipn_nth ts k t Hn) as Hs.
-  pose proof (alt_ok_skipn k ts false Halt) as Hsk.
-  pose proof (firstn_skipn k ts) as Hfs.
-  destruct (skipn k ts) as [|t' r']; [reflexivity|].
-  assert (Ht : t' = t) by congruence. subst t'. clear Hs.
-  rewrite Hop. rewrite add_missing_id; [exact Hfs|exact Hsk].
-Qed.
-
-(* the general fact, for any token list in which operands alternate with operators, there is
-   no '=', and every '(' is followed by an operand or another '(' *)
-Lemma mta_id_core ts :
-  alt_ok ts false = true ->
-  (forall i, find_index sel ts = Some i ->
-             exists t, nth_opt ts (S i) = Some t /\ open_ok t = true) ->
-  (find_index sel ts = None -> first_ok ts = true) ->
-  known_paren3 ts = false -> missing_token_adder ts = ts.
-Proof.
-  intros Halt Hafter Hfirst Hk. rewrite mta_eq.
-  destruct ts as [|t0 r0] eqn:Ets; [reflexivity|]. rewrite <- Ets in *.
-  unfold known_paren3 in Hk. fold sel in Hk.
-  unfold mta_from.
-  destruct (find_index sel ts) as [i|] eqn:Efi.
-  - destruct (Hafter i eq_refl) as (t1 & Ht1 & Ho1).
-    destruct (Nat.leb (length ts) (S i + 1)) eqn:Elen; [reflexivity|].
-    apply Nat.leb_gt in Elen.
-    rewrite Ht1 in *. cbv zeta.
-    destruct (is_op OP_LP t1) eqn:Elp.
-    + destruct (nth_opt_lt ts (S (S i))) as (t2 & Ht2); [lia|].
-      rewrite Ht2 in Hk. simpl in Hk.
-      apply (mta_tail ts (S (S i)) t2); assumption.
-    + apply (mta_tail ts (S i) t1); try assumption.
-      unfold open_ok in Ho1. rewrite Elp, orb_false_r in Ho1.
-      apply negb_true_iff in Ho1. exact Ho1.
-  - destruct (Nat.leb (length ts) (0 + 1)) eqn:Elen; [reflexivity|].
-    assert (Hn0 : nth_opt ts 0 = Some t0) by (rewrite Ets; reflexivity).
-    assert (Hop0 : is_any_op t0 = false).
-    { specialize (Hfirst eq_refl).
-      rewrite Ets in Efi, Hfirst. apply find_index_none_hd in Efi. simpl in Hfirst.
-      unfold sel in Efi. apply orb_false_iff in Efi as [_ Efi].
-      unfold open_ok in Hfirst. rewrite Efi, orb_false_r in Hfirst.
-      apply negb_true_iff in Hfirst. exact Hfirst. }
-    rewrite Hn0. cbv zeta.
-    assert (Hlp0 : is_op OP_LP t0 = false).
-    { destruct (is_op OP_LP t0) eqn:E; [|reflexivity].
-      apply is_op_any in E. congruence. }
-    rewrite Hlp0. apply (mta_tail ts 0 t0); assumption.
-Qed.
-
-Lemma mta_id_gen ts :
-  alt_ok ts false = true -> noeq ts = true -> lp_ok ts = true -> first_ok ts = true ->
-  known_paren3 ts = false -> missing_token_adder ts = ts.
-Proof.
-  intros Halt Hne Hlp Hfirst Hk. apply mta_id_core; auto.
-  intros i Hi. apply after_first_lp; assumption.
+  intro H. unfold missing_token_adder. rewrite (find_index_none _ _ H). reflexivity.
 Qed.
 
 Theorem c02_missing_token_adder_id : forall (e : expr F),
-  wf e = true -> known_paren3 (toks_of e) = false ->
   missing_token_adder (toks_of e) = toks_of e.
 Proof.
-  intros e _ Hk. apply mta_id_gen; try exact Hk.
-  - rewrite <- (app_nil_r (toks_of e)). apply alt_ok_toks. reflexivity.
-  - apply noeq_toks.
-  - rewrite <- (app_nil_r (toks_of e)). apply lp_ok_toks. reflexivity.
-  - rewrite <- (app_nil_r (toks_of e)). apply first_ok_toks.
+  intro e. rewrite (mta_noeq _ (noeq_toks e)). apply add_missing_toks_nil.
 Qed.
+
+Lemma forallb_filter_id {A} (p : A -> bool) : forall l, forallb p l = true -> filter p l = l.
+Proof.
+  induction l as [|x r IH]; simpl; [reflexivity|]. intro H.
+  apply andb_true_iff in H as [H1 H2]. rewrite H1, (IH H2). reflexivity.
+Qed.
+
+Lemma notext_stoks : forall (e : sexpr F), forallb (fun t => negb (is_text t)) (stoks_of e) = true.
+Proof.
+  induction e as [x|e IH|o l IHl r IHr|m e IH]; cbn [stoks_of].
+  - reflexivity.
+  - cbn [forallb is_text negb andb]. rewrite forallb_app, IH. reflexivity.
+  - rewrite forallb_app. cbn [forallb is_text negb andb]. rewrite IHl, IHr. reflexivity.
+  - cbn [forallb is_text negb andb]. exact IH.
+Qed.
+
+Lemma notext_toks : forall (e : expr F), forallb (fun t => negb (is_text t)) (toks_of e) = true.
+Proof. intro e. rewrite <- stoks_inj. apply notext_stoks. Qed.
 
 Lemma filter_notext : forall (e : expr F),
   filter (fun t => negb (is_text t)) (toks_of e) = toks_of e.
-Proof.
-  induction e as [x|e IH|o l IHl r IHr]; cbn [toks_of].
-  - reflexivity.
-  - cbn [filter is_text negb]. rewrite filter_app, IH. reflexivity.
-  - rewrite filter_app. cbn [filter is_text negb]. rewrite IHl, IHr. reflexivity.
-Qed.
+Proof. intro e. apply forallb_filter_id, notext_toks. Qed.
 
 Theorem c02_token_cleaner_id : forall infos (e : expr F),
   find_index info_is_eq infos = None ->
@@ -706,14 +777,14 @@ Proof.
 Qed.
 
 Theorem c02_token_level : forall bexec cfg vs infos (e : expr F),
-  wf e = true -> known_paren3 (toks_of e) = false -> find_index info_is_eq infos = None ->
+  wf e = true -> find_index info_is_eq infos = None ->
   let tokens := missing_token_adder (token_cleaner infos (toks_of e)) in
-  exists vs', parse tokens vs = (PAst (ast_of e), vs') /\ vs' = vs /\
-  execute_ast bexec cfg vs' (ast_of e) = Ok (IOk (AItem (INumber (denote e) Decimal)), vs').
+  parse tokens vs = (PAst (ast_of e), vs) /\
+  execute_ast bexec cfg vs (ast_of e) = Ok (IOk (AItem (INumber (denote e) Decimal)), vs).
 Proof.
-  intros bexec cfg vs infos e Hwf Hk Hinf tokens. subst tokens.
-  rewrite (c02_token_cleaner_id infos e Hinf), (c02_missing_token_adder_id e Hwf Hk).
-  exists vs. split; [apply parse_expr_line; exact Hwf|]. split; [reflexivity|apply c02_eval].
+  intros bexec cfg vs infos e Hwf Hinf tokens. subst tokens.
+  rewrite (c02_token_cleaner_id infos e Hinf), (c02_missing_token_adder_id e).
+  split; [apply parse_expr_line; exact Hwf|apply c02_eval].
 Qed.
 
 (* ================================================================== *)
@@ -747,64 +818,274 @@ Qed.
 
 
 (* ================================================================== *)
-(* 7. Bonus: [known_paren3] is exactly the defect class                *)
+(* 7. Juxtaposition: a '+' left out between adjacent operands          *)
 (* ================================================================== *)
 
-Lemma add_missing_length : forall (ts : list (token F)) b, length ts <= length (add_missing ts b).
+(* The scan cannot tell a list with such a '+' left out from the list that has it: in every
+   state it produces the same output for both.  This holds for arbitrary token lists (it is
+   not specific to renderings), also at ')' '(' , ')' x and x '(' boundaries. *)
+Lemma elided_add_missing : forall (ts' ts : list (token F)), elided ts' ts ->
+  forall es opr, add_missing ts' es opr = add_missing ts es opr.
 Proof.
-  induction ts as [|t r IH]; intros b; simpl; [lia|].
-  destruct (is_any_op t); [|destruct b]; simpl.
-  - specialize (IH false). lia.
-  - specialize (IH true). lia.
-  - specialize (IH true). lia.
+  induction 1 as [|t ts' ts H IH|a b ts' ts Ha Hb H IH]; intros es opr.
+  - reflexivity.
+  - cbn [add_missing]. rewrite !IH. reflexivity.
+  - assert (Hb' : forall es', add_missing (b :: ts') false true
+                              = TOperator OP_PLUS :: add_missing (b :: ts) es' false).
+    { intro es'. rewrite IH.
+      destruct b; simpl in Hb; try discriminate.
+      - rewrite !add_missing_num. reflexivity.
+      - apply N.eqb_eq in Hb. rewrite Hb. rewrite !add_missing_lp. reflexivity. }
+    destruct a; simpl in Ha; try discriminate.
+    + rewrite !add_missing_num, add_missing_plus, (Hb' false). reflexivity.
+    + apply N.eqb_eq in Ha. rewrite Ha.
+      rewrite !add_missing_rp, add_missing_plus, (Hb' false). reflexivity.
 Qed.
 
-Lemma nth_opt_some_lt {A} : forall (ts : list A) k t, nth_opt ts k = Some t -> k < length ts.
+Lemma elided_forallb (p : token F -> bool) : forall ts' ts, elided ts' ts ->
+  forallb p ts = true -> forallb p ts' = true.
 Proof.
-  induction ts as [|x r IH]; intros k t H; [destruct k; discriminate|].
-  destruct k as [|k]; simpl in *; [lia|]. apply IH in H. lia.
+  induction 1 as [|t ts' ts H IH|a b ts' ts Ha Hb H IH]; intro Hp.
+  - reflexivity.
+  - cbn [forallb] in *. apply andb_true_iff in Hp as [H1 H2]. rewrite H1, (IH H2). reflexivity.
+  - cbn [forallb] in Hp. apply andb_true_iff in Hp as [H1 H2]. apply andb_true_iff in H2 as [_ H2].
+    change (forallb p (a :: b :: ts')) with (p a && forallb p (b :: ts')).
+    rewrite H1, (IH H2). reflexivity.
 Qed.
 
-Lemma mta_paren3_longer (ts : list (token F)) :
-  known_paren3 ts = true -> length ts < length (missing_token_adder ts).
+(* for any list without '=': the post-processed lists coincide *)
+Theorem c02_elided_gen : forall (ts' ts : list (token F)), noeq ts = true -> elided ts' ts ->
+  missing_token_adder ts' = missing_token_adder ts.
 Proof.
-  unfold known_paren3. fold sel. intro Hk.
-  destruct (find_index sel ts) as [i|] eqn:Efi; [|discriminate].
-  destruct (nth_opt ts (S i)) as [a|] eqn:Ha; [|discriminate].
-  destruct (nth_opt ts (S (S i))) as [b|] eqn:Hb; [|discriminate].
-  apply andb_true_iff in Hk as [Hlp Hop].
-  pose proof (nth_opt_some_lt _ _ _ Hb) as Hlen.
-  rewrite mta_eq. destruct ts as [|t0 r0] eqn:Ets; [discriminate|]. rewrite <- Ets in *.
-  rewrite Efi. unfold mta_from.
-  destruct (Nat.leb (length ts) (S i + 1)) eqn:Elen; [apply Nat.leb_le in Elen; lia|].
-  rewrite Ha, Hlp. cbv zeta.
-  pose proof (skipn_nth ts (S (S i)) b Hb) as Hs.
-  pose proof (skipn_length (S (S i)) ts) as Hsl.
-  pose proof (firstn_length_le ts (n := S (S i))) as Hfl.
-  destruct (skipn (S (S i)) ts) as [|b' r']; [discriminate|].
-  assert (Hbb : b' = b) by congruence. subst b'. rewrite Hop.
-  rewrite app_length.
-  change (add_missing (TNumber f0 Decimal :: b :: r') false)
-    with (TNumber f0 Decimal :: add_missing (b :: r') true).
-  pose proof (add_missing_length (b :: r') true) as Hal. cbn [length] in Hal, Hsl |- *.
-  rewrite Hfl by lia. lia.
+  intros ts' ts Hn H.
+  rewrite (mta_noeq ts Hn), (mta_noeq ts' (elided_forallb _ _ _ H Hn)).
+  apply elided_add_missing, H.
 Qed.
 
-Theorem c02_missing_token_adder_iff : forall (e : expr F),
-  missing_token_adder (toks_of e) = toks_of e <-> known_paren3 (toks_of e) = false.
+Theorem c02_elided : forall (e : expr F) ts', elided ts' (toks_of e) ->
+  missing_token_adder ts' = toks_of e.
 Proof.
-  intro e. split.
-  - intro Heq. destruct (known_paren3 (toks_of e)) eqn:Hk; [|reflexivity].
-    apply mta_paren3_longer in Hk. rewrite Heq in Hk. lia.
-  - intro Hk. apply mta_id_gen; try exact Hk.
-    + rewrite <- (app_nil_r (toks_of e)). apply alt_ok_toks. reflexivity.
-    + apply noeq_toks.
-    + rewrite <- (app_nil_r (toks_of e)). apply lp_ok_toks. reflexivity.
-    + rewrite <- (app_nil_r (toks_of e)). apply first_ok_toks.
+  intros e ts' H. rewrite (c02_elided_gen ts' (toks_of e) (noeq_toks e) H).
+  apply c02_missing_token_adder_id.
+Qed.
+
+Theorem c02_juxtaposition_level : forall bexec cfg vs (e : expr F) ts',
+  wf e = true -> elided ts' (toks_of e) ->
+  parse (missing_token_adder ts') vs = (PAst (ast_of e), vs) /\
+  execute_ast bexec cfg vs (ast_of e) = Ok (IOk (AItem (INumber (denote e) Decimal)), vs).
+Proof.
+  intros bexec cfg vs e ts' Hwf H. rewrite (c02_elided e ts' H).
+  split; [apply parse_expr_line; exact Hwf|apply c02_eval].
+Qed.
+
+(* the special case of a row of numbers "x1 x2 ... xn": the left-to-right sum *)
+Definition nums (xs : list F) : list (token F) := map (fun x => TNumber x Decimal) xs.
+
+Fixpoint plus_chain (acc : expr F) (xs : list F) : expr F :=
+  match xs with
+  | [] => acc
+  | y :: r => plus_chain (Bin BAdd acc (Lit y)) r
+  end.
+
+Definition plus_toks (xs : list F) : list (token F) :=
+  flat_map (fun y => [TOperator OP_PLUS; TNumber y Decimal]) xs.
+
+Lemma toks_plus_chain : forall xs acc, toks_of (plus_chain acc xs) = toks_of acc ++ plus_toks xs.
+Proof.
+  induction xs as [|y r IH]; intros acc; simpl.
+  - rewrite app_nil_r. reflexivity.
+  - rewrite IH. cbn [toks_of bop_char]. rewrite <- app_assoc. reflexivity.
+Qed.
+
+Lemma wf_plus_chain : forall xs acc, wf acc = true -> wf (plus_chain acc xs) = true.
+Proof.
+  induction xs as [|y r IH]; intros acc H; simpl; [exact H|].
+  apply IH. cbn [wf bop_level level_of]. rewrite H. reflexivity.
+Qed.
+
+Lemma denote_plus_chain : forall xs acc, denote (plus_chain acc xs) = fold_left fadd xs (denote acc).
+Proof. induction xs as [|y r IH]; intros acc; simpl; [reflexivity|]. rewrite IH. reflexivity. Qed.
+
+Lemma elided_refl : forall ts : list (token F), elided ts ts.
+Proof. induction ts; constructor; assumption. Qed.
+
+Lemma elided_nums : forall xs x, elided (nums (x :: xs)) (TNumber x Decimal :: plus_toks xs).
+Proof.
+  induction xs as [|y r IH]; intro x.
+  - apply elided_refl.
+  - cbn [nums map plus_toks flat_map app]. apply el_drop; [reflexivity|reflexivity|]. apply IH.
+Qed.
+
+Theorem c02_juxtaposition_tokens : forall x xs,
+  missing_token_adder (nums (x :: xs)) = toks_of (plus_chain (Lit x) xs).
+Proof.
+  intros x xs. apply c02_elided. rewrite toks_plus_chain. apply elided_nums.
+Qed.
+
+Theorem c02_juxtaposition : forall bexec cfg vs x xs,
+  let tokens := missing_token_adder (nums (x :: xs)) in
+  parse tokens vs = (PAst (ast_of (plus_chain (Lit x) xs)), vs) /\
+  execute_ast bexec cfg vs (ast_of (plus_chain (Lit x) xs))
+  = Ok (IOk (AItem (INumber (fold_left fadd xs x) Decimal)), vs).
+Proof.
+  intros bexec cfg vs x xs tokens. subst tokens. rewrite c02_juxtaposition_tokens.
+  split.
+  - apply parse_expr_line. apply wf_plus_chain. reflexivity.
+  - rewrite c02_eval, denote_plus_chain. reflexivity.
 Qed.
 
 (* ================================================================== *)
-(* Stretch (a): assignment  "name = e"                                 *)
+(* 8. A sign at an expression start: a 0 is supplied                   *)
+(* ================================================================== *)
+
+Theorem c02_leading_sign : forall (e : expr F) (minus : bool),
+  missing_token_adder (TOperator (sign_char minus) :: toks_of e)
+  = TNumber f0 Decimal :: TOperator (sign_char minus) :: toks_of e.
+Proof.
+  intros e minus. rewrite mta_noeq.
+  - rewrite add_missing_sign, add_missing_toks_nil. reflexivity.
+  - unfold noeq. cbn [forallb]. fold (noeq (toks_of e)). rewrite noeq_toks.
+    destruct minus; reflexivity.
+Qed.
+
+(* ... so the line is read as "0 - e1 ..." / "0 + e1 ...": the tree with 0 hung at the far
+   left of the additive chain *)
+Definition sign_bop (minus : bool) : bop := if minus then BSub else BAdd.
+
+Fixpoint lead (minus : bool) (e : expr F) : expr F :=
+  match e with
+  | Bin o l r =>
+    if Nat.eqb (bop_level o) 0 then Bin o (lead minus l) r
+    else Bin (sign_bop minus) (Lit f0) e
+  | _ => Bin (sign_bop minus) (Lit f0) e
+  end.
+
+Lemma bop_char_sign minus : bop_char (sign_bop minus) = sign_char minus.
+Proof. destruct minus; reflexivity. Qed.
+
+Lemma toks_lead : forall minus (e : expr F),
+  toks_of (lead minus e) = TNumber f0 Decimal :: TOperator (sign_char minus) :: toks_of e.
+Proof.
+  intros minus e. induction e as [x|e IH|o l IHl r IHr]; cbn [lead].
+  - cbn [toks_of app]. rewrite bop_char_sign. reflexivity.
+  - cbn [toks_of app]. rewrite bop_char_sign. reflexivity.
+  - destruct (Nat.eqb (bop_level o) 0).
+    + cbn [toks_of]. rewrite IHl. reflexivity.
+    + cbn [toks_of app]. rewrite bop_char_sign. reflexivity.
+Qed.
+
+Lemma wf_lead : forall minus (e : expr F), wf e = true -> wf (lead minus e) = true.
+Proof.
+  intros minus e. induction e as [x|e IH|o l IHl r IHr]; intro H; cbn [lead].
+  - destruct minus; exact H.
+  - destruct minus; cbn [wf sign_bop bop_level level_of andb Nat.leb Nat.ltb] in *; rewrite H; reflexivity.
+  - destruct (Nat.eqb (bop_level o) 0) eqn:Eo.
+    + apply Nat.eqb_eq in Eo. cbn [wf] in *. rewrite Eo in *.
+      apply andb_true_iff in H as [H Hr]. apply andb_true_iff in H as [H Hl].
+      apply andb_true_iff in H as [Hwl Hwr].
+      rewrite (IHl Hwl), Hwr, Hr. reflexivity.
+    + assert (H2 : level_of (Bin o l r) = 2).
+      { destruct o; simpl in Eo |- *; try discriminate; reflexivity. }
+      destruct minus; cbn [wf sign_bop] ; rewrite H2; cbn [wf] in H; rewrite H; reflexivity.
+Qed.
+
+Lemma denote_lead_atom minus (e : expr F) :
+  denote (Bin (sign_bop minus) (Lit f0) e) = (if minus then fsub else fadd) f0 (denote e).
+Proof. destruct minus; reflexivity. Qed.
+
+Theorem c02_leading_sign_level : forall bexec cfg vs (e : expr F) (minus : bool),
+  wf e = true ->
+  let tokens := missing_token_adder (TOperator (sign_char minus) :: toks_of e) in
+  parse tokens vs = (PAst (ast_of (lead minus e)), vs) /\
+  execute_ast bexec cfg vs (ast_of (lead minus e))
+  = Ok (IOk (AItem (INumber (denote (lead minus e)) Decimal)), vs).
+Proof.
+  intros bexec cfg vs e minus Hwf tokens. subst tokens.
+  rewrite c02_leading_sign, <- toks_lead.
+  split; [apply parse_expr_line, wf_lead, Hwf|apply c02_eval].
+Qed.
+
+(* ================================================================== *)
+(* 9. Detached signs in operand position                               *)
+(* ================================================================== *)
+
+Definition not_neg (e : sexpr F) : bool := match e with SNeg _ _ => false | _ => true end.
+
+(* the scan leaves the rendering alone unless it starts, at an expression start, with a sign *)
+Lemma add_missing_stoks : forall (e : sexpr F) suf es,
+  swf e = true -> (es = false \/ not_neg e = true) ->
+  add_missing (stoks_of e ++ suf) es false = stoks_of e ++ add_missing suf false true.
+Proof.
+  induction e as [x|e IH|o l IHl r IHr|m e IH]; intros suf es Hwf Hes; cbn [stoks_of].
+  - cbn [app]. rewrite add_missing_num. reflexivity.
+  - cbn [swf] in Hwf. apply andb_true_iff in Hwf as [Hwf Hn].
+    rewrite <- !app_comm_cons, <- !app_assoc. cbn [app].
+    rewrite add_missing_lp, IH, add_missing_rp; [reflexivity|exact Hwf|].
+    right. destruct e; simpl in Hn |- *; try reflexivity; discriminate.
+  - cbn [swf] in Hwf. apply andb_true_iff in Hwf as [Hwf Hn].
+    apply andb_true_iff in Hwf as [Hwf _]. apply andb_true_iff in Hwf as [Hwf _].
+    apply andb_true_iff in Hwf as [Hwl Hwr].
+    rewrite <- !app_assoc, <- !app_comm_cons.
+    rewrite IHl, add_missing_bop, IHr; [reflexivity|exact Hwr|left; reflexivity|exact Hwl|].
+    destruct Hes as [Hes|_]; [left; exact Hes|right].
+    destruct l; simpl in Hn |- *; try reflexivity; discriminate.
+  - destruct Hes as [Hes|Hes]; [subst es|discriminate].
+    cbn [swf] in Hwf. apply andb_true_iff in Hwf as [_ Hwf].
+    rewrite <- !app_comm_cons, add_missing_sign, IH; [reflexivity|exact Hwf|left; reflexivity].
+Qed.
+
+Theorem c02_sign_missing_token_adder_id : forall (e : sexpr F),
+  swf e = true -> not_neg e = true -> missing_token_adder (stoks_of e) = stoks_of e.
+Proof.
+  intros e Hwf Hn. rewrite (mta_noeq _ (noeq_stoks e)).
+  pose proof (add_missing_stoks e [] true Hwf (or_intror Hn)) as H.
+  rewrite !app_nil_r in H. exact H.
+Qed.
+
+Theorem c02_sign_parse : forall (e : sexpr F), swf e = true ->
+  (match e with SNeg _ _ => False | _ => True end) ->
+  missing_token_adder (stoks_of e) = stoks_of e /\
+  parse_level (parse_fuel (stoks_of e)) LAddSub (stoks_of e) = (PAst (sast_of e), []).
+Proof.
+  intros e Hwf Hn. split.
+  - apply c02_sign_missing_token_adder_id; [exact Hwf|]. destruct e; try reflexivity. destruct Hn.
+  - apply c02_sparse_level, swf_pwf, Hwf.
+Qed.
+
+(* the restriction on the top of the tree is necessary for the first half: a sign at the
+   start of the line gets a 0 in front *)
+Theorem c02_sign_top_neg : forall m (e : sexpr F), swf e = true ->
+  missing_token_adder (stoks_of (SNeg m e)) = TNumber f0 Decimal :: stoks_of (SNeg m e).
+Proof.
+  intros m e Hwf. rewrite (mta_noeq _ (noeq_stoks (SNeg m e))). cbn [stoks_of].
+  rewrite add_missing_sign.
+  pose proof (add_missing_stoks e [] false Hwf (or_introl eq_refl)) as H.
+  rewrite !app_nil_r in H. rewrite H. reflexivity.
+Qed.
+
+Lemma parse_sexpr_line : forall vs (e : sexpr F), pwf e = true ->
+  parse (stoks_of e) vs = (PAst (sast_of e), vs).
+Proof.
+  intros vs e Hwf. unfold parse, parse_assignment. rewrite find_eq_stoks.
+  rewrite (c02_sparse_level e Hwf). reflexivity.
+Qed.
+
+(* the whole token-level pipeline with detached signs *)
+Theorem c02_sign_level : forall bexec cfg vs infos (e : sexpr F),
+  swf e = true -> not_neg e = true -> find_index info_is_eq infos = None ->
+  let tokens := missing_token_adder (token_cleaner infos (stoks_of e)) in
+  parse tokens vs = (PAst (sast_of e), vs) /\
+  execute_ast bexec cfg vs (sast_of e) = Ok (IOk (AItem (INumber (sdenote e) Decimal)), vs).
+Proof.
+  intros bexec cfg vs infos e Hwf Hn Hinf tokens. subst tokens.
+  unfold token_cleaner. rewrite Hinf. cbn [firstn skipn app].
+  rewrite (forallb_filter_id _ _ (notext_stoks e)).
+  rewrite (c02_sign_missing_token_adder_id e Hwf Hn).
+  split; [apply parse_sexpr_line, swf_pwf, Hwf|apply c02_sign_eval_any].
+Qed.
+
+(* ================================================================== *)
+(* 10. Assignment  "name = e"                                          *)
 (* ================================================================== *)
 
 Definition assign_toks (n : str) (e : expr F) : list (token F) :=
@@ -877,26 +1158,11 @@ Proof.
   - cbn [v_tokens]. apply assoc_insert_same.
 Qed.
 
-(* post-processing of the assignment line: the '=' is what missing_token_adder keys on, so
-   the defect class is the same predicate on the whole line ("x = ((1+2))" is in it) *)
+(* post-processing of the assignment line: the scan starts after the '=' *)
 Lemma forallb_skipn {A} (p : A -> bool) : forall k l, forallb p l = true -> forallb p (skipn k l) = true.
 Proof.
   induction k as [|k IH]; intros l H; [exact H|]. destruct l as [|x r]; [reflexivity|].
   simpl in *. apply andb_true_iff in H as [_ H]. apply IH, H.
-Qed.
-
-Lemma filter_id {A} (p : A -> bool) : forall l, forallb p l = true -> filter p l = l.
-Proof.
-  induction l as [|x r IH]; simpl; [reflexivity|]. intro H.
-  apply andb_true_iff in H as [H1 H2]. rewrite H1, (IH H2). reflexivity.
-Qed.
-
-Lemma notext_toks : forall (e : expr F), forallb (fun t => negb (is_text t)) (toks_of e) = true.
-Proof.
-  induction e as [x|e IH|o l IHl r IHr]; cbn [toks_of].
-  - reflexivity.
-  - cbn [forallb is_text negb andb]. rewrite forallb_app, IH. reflexivity.
-  - rewrite forallb_app. cbn [forallb is_text negb andb]. rewrite IHl, IHr. reflexivity.
 Qed.
 
 Theorem c02_assign_token_cleaner_id : forall infos i n (e : expr F),
@@ -904,85 +1170,45 @@ Theorem c02_assign_token_cleaner_id : forall infos i n (e : expr F),
   token_cleaner infos (assign_toks n e) = assign_toks n e.
 Proof.
   intros infos i n e H. unfold token_cleaner, assign_toks. rewrite H.
-  cbn [firstn skipn]. rewrite filter_id.
+  cbn [firstn skipn]. rewrite forallb_filter_id.
   - rewrite <- app_comm_cons. f_equal. apply firstn_skipn.
   - apply forallb_skipn. cbn [forallb is_text negb andb]. apply notext_toks.
 Qed.
 
 Theorem c02_assign_missing_token_adder_id : forall n (e : expr F),
-  known_paren3 (assign_toks n e) = false ->
   missing_token_adder (assign_toks n e) = assign_toks n e.
 Proof.
-  intros n e Hk. apply mta_id_core; try exact Hk.
-  - unfold assign_toks. cbn [alt_ok is_any_op negb andb].
-    rewrite <- (app_nil_r (toks_of e)). apply alt_ok_toks. reflexivity.
-  - intros i Hi. unfold assign_toks in *.
-    change (find_index sel (TText n :: TOperator OP_EQ :: toks_of e)) with (Some 1) in Hi.
-    inversion Hi; subst i. cbn [nth_opt].
-    pose proof (first_ok_toks e []) as Hf. rewrite app_nil_r in Hf.
-    destruct (toks_of e) as [|t r]; [discriminate|]. exists t. split; [reflexivity|exact Hf].
-  - unfold assign_toks.
-    change (find_index sel (TText n :: TOperator OP_EQ :: toks_of e)) with (Some 1).
-    discriminate.
+  intros n e. unfold missing_token_adder, assign_toks.
+  change (find_index (is_op OP_EQ) (TText n :: TOperator OP_EQ :: toks_of e)) with (Some 1).
+  cbn [firstn skipn app]. rewrite add_missing_toks_nil. reflexivity.
 Qed.
 
-(* ================================================================== *)
-(* Stretch (b): juxtaposition  "x1 x2 ... xn"  is the left-to-right sum *)
-(* ================================================================== *)
-
-Definition nums (xs : list F) : list (token F) := map (fun x => TNumber x Decimal) xs.
-
-Fixpoint plus_chain (acc : expr F) (xs : list F) : expr F :=
-  match xs with
-  | [] => acc
-  | y :: r => plus_chain (Bin BAdd acc (Lit y)) r
-  end.
-
-Definition plus_toks (xs : list F) : list (token F) :=
-  flat_map (fun y => [TOperator OP_PLUS; TNumber y Decimal]) xs.
-
-Lemma add_missing_nums : forall xs, add_missing (nums xs) true = plus_toks xs.
-Proof. induction xs as [|y r IH]; simpl; [reflexivity|]. rewrite IH. reflexivity. Qed.
-
-Lemma toks_plus_chain : forall xs acc, toks_of (plus_chain acc xs) = toks_of acc ++ plus_toks xs.
+(* the assignment line with juxtaposed operands on the right-hand side *)
+Theorem c02_assign_elided : forall n (e : expr F) ts', elided ts' (toks_of e) ->
+  missing_token_adder (TText n :: TOperator OP_EQ :: ts') = assign_toks n e.
 Proof.
-  induction xs as [|y r IH]; intros acc; simpl.
-  - rewrite app_nil_r. reflexivity.
-  - rewrite IH. cbn [toks_of bop_char]. rewrite <- app_assoc. reflexivity.
+  intros n e ts' H. unfold missing_token_adder, assign_toks.
+  change (find_index (is_op OP_EQ) (TText n :: TOperator OP_EQ :: ts')) with (Some 1).
+  cbn [firstn skipn app]. rewrite (elided_add_missing _ _ H), add_missing_toks_nil. reflexivity.
 Qed.
 
-Lemma wf_plus_chain : forall xs acc, wf acc = true -> wf (plus_chain acc xs) = true.
+(* the whole assignment line through post-processing, parser and interpreter *)
+Theorem c02_assign_level : forall bexec cfg vs infos i n (e : expr F),
+  wf e = true -> find_index info_is_eq infos = Some i ->
+  assoc_mem (to_lowercase n) vs = false ->
+  let name := to_lowercase n in
+  let tokens := missing_token_adder (token_cleaner infos (assign_toks n e)) in
+  exists vs1 vs2,
+    parse tokens vs = (PAst (AAssignment name (ast_of e)), vs1) /\
+    execute_ast bexec cfg vs1 (AAssignment name (ast_of e)) =
+      Ok (IOk (AItem (INumber (denote e) Decimal)), vs2) /\
+    assoc name vs2 =
+      Some {| v_tokens := [TText n]; v_data := AItem (INumber (denote e) Decimal) |}.
 Proof.
-  induction xs as [|y r IH]; intros acc H; simpl; [exact H|].
-  apply IH. cbn [wf bop_level level_of]. rewrite H. reflexivity.
-Qed.
-
-Lemma denote_plus_chain : forall xs acc, denote (plus_chain acc xs) = fold_left fadd xs (denote acc).
-Proof. induction xs as [|y r IH]; intros acc; simpl; [reflexivity|]. rewrite IH. reflexivity. Qed.
-
-Lemma find_sel_nums : forall xs, find_index sel (nums xs) = None.
-Proof. induction xs as [|y r IH]; simpl; [reflexivity|]. rewrite IH. reflexivity. Qed.
-
-(* missing_token_adder writes the '+' between consecutive numbers *)
-Theorem c02_juxtaposition_tokens : forall x xs,
-  missing_token_adder (nums (x :: xs)) = toks_of (plus_chain (Lit x) xs).
-Proof.
-  intros x xs. rewrite toks_plus_chain, mta_eq. cbn [nums map].
-  fold (nums xs). change (TNumber x Decimal :: nums xs) with (nums (x :: xs)).
-  rewrite find_sel_nums. destruct xs as [|y r]; [reflexivity|].
-  unfold mta_from. cbn [nums map length Nat.leb Nat.add nth_opt is_op skipn firstn app is_any_op].
-  cbn [add_missing is_any_op]. fold (nums r). rewrite add_missing_nums. reflexivity.
-Qed.
-
-Theorem c02_juxtaposition : forall bexec cfg vs x xs,
-  let tokens := missing_token_adder (nums (x :: xs)) in
-  exists a, parse tokens vs = (PAst a, vs) /\
-  execute_ast bexec cfg vs a = Ok (IOk (AItem (INumber (fold_left fadd xs x) Decimal)), vs).
-Proof.
-  intros bexec cfg vs x xs tokens. subst tokens. rewrite c02_juxtaposition_tokens.
-  exists (ast_of (plus_chain (Lit x) xs)). split.
-  - apply parse_expr_line. apply wf_plus_chain. reflexivity.
-  - rewrite c02_eval, denote_plus_chain. reflexivity.
+  intros bexec cfg vs infos i n e Hwf Hinf Hmem name tokens. subst name tokens.
+  rewrite (c02_assign_token_cleaner_id infos i n e Hinf), c02_assign_missing_token_adder_id.
+  destruct (c02_assignment bexec cfg vs n e Hwf Hmem) as (vs1 & vs2 & H1 & _ & H3 & H4).
+  exists vs1, vs2. auto.
 Qed.
 
 End WithNum.
@@ -992,20 +1218,36 @@ Print Assumptions parse_sub_mono.
 Print Assumptions binary_loop_mono.
 Print Assumptions right_loop_mono.
 Print Assumptions parse_unary_mono.
+Print Assumptions parse_paren_mono.
+Print Assumptions c02_sparse_level_cost.
+Print Assumptions c02_sparse_level_suffix.
+Print Assumptions c02_sparse_level.
 Print Assumptions c02_parse_level_cost.
 Print Assumptions c02_parse_level_suffix.
 Print Assumptions c02_parse_level.
 Print Assumptions c02_eval.
+Print Assumptions c02_sign_eval_any.
+Print Assumptions c02_sign_eval.
 Print Assumptions c02_missing_token_adder_id.
 Print Assumptions c02_token_cleaner_id.
 Print Assumptions c02_token_level.
 Print Assumptions c02_parenthesise_wf.
 Print Assumptions c02_parenthesise_denote.
-Print Assumptions c02_missing_token_adder_iff.
+Print Assumptions c02_elided_gen.
+Print Assumptions c02_elided.
+Print Assumptions c02_juxtaposition_level.
+Print Assumptions c02_juxtaposition_tokens.
+Print Assumptions c02_juxtaposition.
+Print Assumptions c02_leading_sign.
+Print Assumptions c02_leading_sign_level.
+Print Assumptions c02_sign_missing_token_adder_id.
+Print Assumptions c02_sign_parse.
+Print Assumptions c02_sign_top_neg.
+Print Assumptions c02_sign_level.
 Print Assumptions c02_assign_parse.
 Print Assumptions c02_assign_exec.
 Print Assumptions c02_assignment.
 Print Assumptions c02_assign_token_cleaner_id.
 Print Assumptions c02_assign_missing_token_adder_id.
-Print Assumptions c02_juxtaposition_tokens.
-Print Assumptions c02_juxtaposition.
+Print Assumptions c02_assign_elided.
+Print Assumptions c02_assign_level.
